@@ -105,6 +105,9 @@ type caseT struct {
 	// speaks of "a supplied state"; whether an empty one is appended (as "state=") or left out
 	// is open
 	emptyState bool
+	// a storage call of this execution was made to fail (part storage-faults): refusing is then
+	// always permitted, also where the fault-free baseline demands the redirect
+	faulted bool
 }
 
 func caseOf(g func(string) string) caseT {
@@ -127,6 +130,14 @@ type expectation struct {
 }
 
 func expect(cs caseT) expectation {
+	e := expectFaultFree(cs)
+	if cs.faulted {
+		e.mustRequested = false
+	}
+	return e
+}
+
+func expectFaultFree(cs caseT) expectation {
 	h := cs.hint
 	e := expectation{user: h.sub}
 	fam := h.family
